@@ -122,9 +122,11 @@ def fam_stalta(ctx, rng):
     hv, akind = attach(rng, k)
     if pre_reject(rng, hv):
         akind += "+earlier-rejections"
-    info = dict(k=k, dt=dt, n=n, sta=sta, lta=lta, lo=lo, hi=hi, components=list(comps), attached=akind)
+    # the amplitude unit is arbitrary (counts, nm/s, m/s, m: down to 1e-12 and below); ratios do not depend on it
+    unit = float(rng.choice([1.0, 1.0, 1e3, 1e-6, 1e-9, 1e-12]))
+    info = dict(k=k, dt=dt, n=n, sta=sta, lta=lta, lo=lo, hi=hi, components=list(comps), attached=akind, amplitude_unit=unit)
     ctx.describe(**info)
-    recs = build(items, dt)
+    recs = build(items, dt, unit)
     before = snap.snap(recs)
     kw = dict(sta_seconds=sta, lta_seconds=lta, min_sta_lta_ratio=lo, max_sta_lta_ratio=hi, components=comps)
     out = hvsrpy.sta_lta_window_rejection(recs, hvsr=hv, **kw)
@@ -187,7 +189,7 @@ def fam_maxvalue(ctx, rng):
     n = int(rng.choice([200, 1000]))
     comps = COMPS[int(rng.integers(0, 7))]
     items = gen_windows(rng, k, n, dt)
-    amp_scale = float(10 ** rng.uniform(-6, 3))          # absolute thresholds must work for any amplitude unit
+    amp_scale = float(10 ** rng.uniform(-13, 3))          # absolute thresholds must work for any amplitude unit
     items = [[a * amp_scale for a in arrs] for arrs in items]
     idx = ["ns", "ew", "vt"]
     maxima = np.array([max(np.max(np.abs(a[idx.index(c)])) for c in comps) for a in items])
